@@ -124,6 +124,7 @@ class Watch:
     defaults, attributes of module-level instances down to the model tables), re-read cheaply at every line event."""
 
     def __init__(self):
+        self._fast = None
         self.leaves = []  # (owner mapping or None, key, fixed object or None)
         self.owners = []
         seen = set()
@@ -173,10 +174,18 @@ class Watch:
                 for k in list(d.keys()):
                     visit(d, k, d[k], 4)
 
-    def digest(self):
+    def digest(self, fast=False):
+        """fast=True: only containers, scalars and namespace sizes (mutation and counters); the identity of bound functions,
+        classes and other objects (rebinding) is part of the full digest only"""
         acc = [len(o) for o in self.owners]
         ap = acc.append
-        for owner, key in self.leaves:
+        if fast:
+            if self._fast is None:
+                self._fast = [(o, k) for o, k in self.leaves if k in o and (type(o[k]) in (list, dict, set) or type(o[k]) in _PRIMS)]
+            leaves = self._fast
+        else:
+            leaves = self.leaves
+        for owner, key in leaves:
             try:
                 v = owner[key]
             except KeyError:
@@ -199,8 +208,8 @@ class Watch:
 _watch = None
 
 
-def shallow_digest():
+def shallow_digest(fast=False):
     global _watch
     if _watch is None:
         _watch = Watch()
-    return _watch.digest()
+    return _watch.digest(fast)
